@@ -118,10 +118,26 @@ def check(ctx):
         except Exception as e:
             ctx.violation("%s adapter construction raises %s" % (spec.typ, type(e).__name__), {"adapter": spec.to_json(), "why": "%s: %s" % (type(e).__name__, e)})
             continue
+        # every fourth adapter also as a worker process gets it under the 'spawn' start method: through pickle
+        pick = None
+        if len(meta) % 4 == 0:
+            try:
+                import pickle
+                pick = pickle.loads(pickle.dumps(ad_mock))
+            except Exception as e:
+                ctx.violation("adapter cannot be pickled: %s" % type(e).__name__, {"adapter": spec.to_json(), "read": "", "why": "%s: %s" % (type(e).__name__, e)})
         for r in reads:
             try:
                 mt = ad_mock.match_to(r)
                 real_mt = ad_real.match_to(r)
+                if pick is not None and U.match_tuple(pick.match_to(r)) != U.match_tuple(mt):
+                    n_viol += 1
+                    dist["pickled adapters"] = dist.get("pickled adapters", 0) + 1
+                    ctx.violation("%s: the adapter answers differently after pickling" % spec.typ,
+                                  {"adapter": spec.to_json(), "read": r, "observed": U.match_tuple(pick.match_to(r)), "before_pickling": U.match_tuple(mt),
+                                   "why": U.oracle_sound(spec, ad_mock, r, pick.match_to(r)) or "match differs from the one of the original object"})
+                elif pick is not None:
+                    dist["pickled adapters"] = dist.get("pickled adapters", 0) + 1
             except Exception as e:
                 ctx.violation("%s match_to raises %s" % (spec.typ, type(e).__name__), {"adapter": spec.to_json(), "read": r, "why": "match_to raised %s: %s" % (type(e).__name__, e)})
                 continue
